@@ -443,7 +443,18 @@ def eval_C17(item):
 def gen_item_C20(rng, idx, tier):
     case = gen.gen_compute_case(rng, maxpix=30)
     case['dtype'] = 'float64'
-    kind = rng.choice(['same', 'params', 'crits', 'data', 'nanmask', 'loaded', 'pruned', 'pruned2', 'shape', 'minv', 'nondendro'])
+    kind = rng.choice(['same', 'params', 'crits', 'data', 'nanmask', 'loaded', 'loaded', 'pruned', 'pruned2', 'shape', 'minv', 'nondendro'])
+    if kind == 'loaded' and rng.random() < 0.4:
+        # integer data beyond 2**53 with an integer threshold: parameters that a float cannot hold
+        case['k'] = [2 ** 60 + 1 + ((x or 0) % 13) for x in case['k']]
+        case['fb'] = 0
+        case['dtype'] = 'int64'
+        case['kind'] = 'bigint'
+        case['crits'] = []
+        case['mind'] = case['mind'] % 7
+        case['minv'] = rng.choice(['min', [2 ** 60 + rng.randint(0, 6), 1]])
+        for key in ('inf',):
+            case.pop(key, None)
     return {'case': case, 'kind': kind, 'r': rng.randrange(10 ** 6)}
 
 
@@ -524,6 +535,7 @@ def eval_C20(item):
         true_params = {'min_delta': D, 'min_npix': n1}
     else:
         d2, a2 = impl.compute_impl(c2)
+    fmt = None
     if kind == 'loaded':
         fmt = r.choice(['hdf5', 'fits'])
         os.makedirs(WORK, exist_ok=True)
@@ -575,8 +587,11 @@ def eval_C20(item):
         fb = cc['fb']
         mv = dd.params['min_value']
         f = Fraction(mv.item() if hasattr(mv, 'item') else mv) * (2 ** fb)
-        data = np.asarray(dd.data, dtype=float).ravel()
-        ks = ','.join('nan' if np.isnan(x) else str(int(Fraction(float(x)) * (2 ** fb))) for x in data)
+        if np.asarray(dd.data).dtype.kind in 'iu':
+            ks = ','.join(str(int(x) * (2 ** fb)) for x in np.asarray(dd.data).ravel().tolist())
+        else:
+            data = np.asarray(dd.data, dtype=float).ravel()
+            ks = ','.join('nan' if np.isnan(x) else str(int(Fraction(float(x)) * (2 ** fb))) for x in data)
         return '%s@%s@%d/%d@%d@%d@%s' % (','.join(str(x) for x in np.asarray(dd.data).shape), ks or '-', f.numerator, f.denominator,
                                         impl.to_k(dd.params['min_delta'], fb), int(dd.params['min_npix']),
                                         ','.join(str(x) for x in oo['lmap']) or '-')
@@ -591,6 +606,33 @@ def eval_C20(item):
             res['corr'].append('model rejected the eq request: %r' % (ans,))
     except impl.ImplError:
         pass
+    if kind == 'loaded' and not (e12 and e21):
+        # "a dendrogram equals its own saved-and-loaded copy"
+        k8 = False
+        if fmt == 'fits':
+            try:
+                from astropy.io.fits.card import _format_float
+                for key in ('min_value', 'min_delta'):
+                    sv, ld = d1.params[key], d2.params.get(key)
+                    if isinstance(sv, (float, np.floating)) and ld is not None and float(ld) != float(sv):
+                        cands = set()
+                        for v_ in (sv, float(sv)):
+                            try:
+                                cands.add(float(_format_float(v_)))
+                            except Exception:  # noqa
+                                pass
+                        if float(ld) in cands and abs(float(ld) - float(sv)) <= 1e-6 * abs(float(sv)):
+                            k8 = True
+            except Exception:  # noqa
+                k8 = False
+        if k8:
+            res['known'].append(('K8', 'a dendrogram saved to FITS does not equal its re-loaded copy when a float parameter does not '
+                                       'survive the header card (K7)'))
+            res['tags'].append('K8')
+        else:
+            res['pred'].append('a dendrogram does not compare equal to its own saved-and-loaded copy (%s): params saved %r, loaded %r'
+                               % (fmt, dict(d1.params), dict(d2.params)))
+        return res
     if e12 != spec:
         if e12 == eqd and e12 and not same_part:
             res['known'].append(('D10', '__eq__ compares the label map of self with itself: dendrograms on the same data and compatible '
